@@ -13,7 +13,7 @@ def main():
         mp = os.path.join(d, 'meta.json')
         if not os.path.exists(mp):
             continue
-        if only and name.split('-')[0] not in only and not any(name.startswith(o) for o in only):
+        if only and name.split('-')[0] not in only and name.upper() not in only:
             try:                                    # another lane may be rewriting this file right now
                 meta = json.load(open(mp))
             except ValueError:
@@ -21,7 +21,7 @@ def main():
         else:
             meta = json.load(open(mp))
         pid = meta.get('checked_by') or meta['property']
-        if only and meta['property'] not in only:
+        if only and meta['property'] not in only and name.upper() not in only:      # ids (C10) or change names (C10-x1)
             continue
         if meta.get('obsolete'):
             print('%s OBSOLETE (%s)' % (name, (meta.get('disposition') or '')[:100]))
